@@ -10,6 +10,7 @@ SHARED = multiprocessing.Value('i', 0)      # number of run_tagging_tasks calls 
 MOLS = multiprocessing.Value('i', 0)        # number of write_pysam calls (all processes)
 WORKER_COUNTS = {k: multiprocessing.Value('i', 0) for k in ('write_pysam', 'mol_next', 'write_tags')}
 ORIG = {}
+POOLS = []
 
 
 CASE_TIMEOUT = 40
@@ -200,7 +201,9 @@ def install():
         flt = hit('pool')
         if flt:
             boom(flt)
-        return ORIG['Pool'](*a, **kw)
+        pool = ORIG['Pool'](*a, **kw)
+        POOLS.append(pool)
+        return pool
 
     pysam.sort, pysam.index, pysam.merge = p_sort, p_index, p_merge
     os.remove = p_remove
@@ -404,6 +407,15 @@ def run_tagger(tm, case, d, out, faults):
         signal.signal(signal.SIGALRM, old_handler)
         os.chdir(cwd)
         STATE['faults'] = []
+        # the tagger never closes the pool when a worker failed: shut it down in the documented way
+        # (killing the worker processes first can dead-lock Pool's own finaliser)
+        while POOLS:
+            pool = POOLS.pop()
+            try:
+                pool.terminate()
+                pool.join()
+            except BaseException:
+                pass
         for p in multiprocessing.active_children():
             p.terminate()
         gc.collect()
